@@ -367,10 +367,19 @@ func (P *Program) callEffect(eff *Effect, c *ssa.CallCommon, caller *ssa.Functio
 	}
 	callee := c.StaticCallee()
 	if callee == nil {
-		for _, f := range P.siteCallees(caller, c) {
+		cs := P.siteCallees(caller, c)
+		allFalco := len(cs) > 0
+		for _, f := range cs {
 			eff.add(P.effectOf(f))
+			if !inFalco(f) {
+				allFalco = false
+			}
 		}
-		eff.Ext = true
+		if !allFalco {
+			// (the whole-program VTA graph resolved the function value to falco functions only:
+			// nothing outside falco can be called here)
+			eff.Ext = true
+		}
 		return
 	}
 	if con := P.contractFor(callee); con != nil && !con.Extern {
